@@ -87,6 +87,24 @@ def emit(stmts, g, ind=1):
                 out += o2
             out.append(pad + "}")
             ast.append(("if_child_ok", a1, a2))
+        elif t == "ifu":
+            # unbraced: every macro must be usable as the single statement of an if / else arm (dangling-else safe)
+            k = g.fresh()
+            o1, a1 = emit([s[1]], g, ind + 1)
+            out.append("%sif (cond(%d))" % (pad, k))
+            out += o1
+            a2 = []
+            if s[2] is not None:
+                o2, a2 = emit([s[2]], g, ind + 1)
+                out.append(pad + "else")
+                out += o2
+            ast.append(("if", k, a1, a2))
+        elif t == "whileu":
+            k = g.fresh()
+            o1, a1 = emit([s[1]], g, ind + 1)
+            out.append("%swhile (cond(%d))" % (pad, k))
+            out += o1
+            ast.append(("while", k, a1))
         elif t == "while":
             k = g.fresh()
             o1, a1 = emit(s[1], g, ind + 1)
@@ -112,6 +130,9 @@ def contexts(b):
         [("while", [b, E])], [("while", [E, b])], [E, ("while", [b]), E],
         [("if", [("while", [b, E])], [E])], [("while", [("if", [b], [E])])], [("while", [("if", [E], [b])]), E],
         [("while", [("while", [b])])], [("if", [("if", [b], [E])], [b])],
+        # unbraced arms: the macro as the single statement of if / else / while
+        [("ifu", b, E), E], [("ifu", E, b), E], [("ifu", b, None), E], [E, ("whileu", b), E],
+        [("ifu", b, b)], [("if", [("ifu", b, E)], [E]), E],
     ]
 
 
